@@ -72,7 +72,8 @@ MonInit ==
       outcome    |-> EmptyFn,   \* task -> "success" | "failed" | "skipped"
       nlines     |-> 0,         \* progress lines so far
       failSeen   |-> FALSE,     \* Conductor has reported a failure
-      killed     |-> {},
+      killed     |-> {},        \* tasks whose process GROUP was signalled
+      leaderOnly |-> {},        \* tasks of which only the leading process was signalled (kill(pid) instead of killpg)
       badkill    |-> FALSE,
       aborted    |-> FALSE,
       liveAtAbort|-> {},
@@ -200,8 +201,11 @@ OnFailedLine(C, m, t, syncfail) ==
               !.viol = @ \cup V(t \notin DOMAIN m.outcome, "OneOutcomeEach")
                          \cup V(IF IsProc(C, t) THEN Failed(m, t) ELSE syncfail, "StatusBelongsToTask")]
 
-OnKill(C, m, t, sig, foreign) ==
-    [m EXCEPT !.killed = @ \cup (IF foreign THEN {} ELSE {t}),
+(* grp: the signal went to the process GROUP (killpg); a signal to the leading process alone leaves the rest of the task's  *)
+(* processes running - the exit of the leader that follows does not show that the task was stopped                           *)
+OnKill(C, m, t, sig, foreign, grp) ==
+    [m EXCEPT !.killed = @ \cup (IF foreign \/ ~grp THEN {} ELSE {t}),
+              !.leaderOnly = @ \cup (IF ~foreign /\ ~grp THEN {t} ELSE {}),
               !.badkill = @ \/ foreign \/ sig # 15,
               !.viol = @ \cup V(~foreign, "OnlyOwnGroups")]
 
@@ -244,7 +248,7 @@ OnReturn(C, m, exit, hang, stderrKind, failedList, skippedList, newRows, bannerA
                            ELSE newRows = {t \in N : C.kind[t] = "exp" /\ Succeeded(C, m, t) /\
                                               t \in DOMAIN m.outcome /\ m.outcome[t] = "success"}),
                  "RowsOnlyForExit0")
-          \cup V(~m.aborted \/ hang \/ m.liveAtAbort \subseteq m.killed \cup {t \in DOMAIN m.exitst : TRUE}, "AllLiveKilled")
+          \cup V(~m.aborted \/ hang \/ m.liveAtAbort \subseteq m.killed \cup ({t \in DOMAIN m.exitst : TRUE} \ m.leaderOnly), "AllLiveKilled")
           (* ... and it SAYS that it was aborted (bannerAborted: the abort message was printed), not something else *)
           \cup V(~m.aborted \/ hang \/ (exit = 1 /\ stderrKind = "ERROR" /\ bannerAborted), "AbortedNotInternal")]
 =============================================================================
